@@ -206,6 +206,8 @@ class Only:
     conditions of both properties).  Everything else the borrowed module reports (other rules, floors, known findings of
     the other property) is dropped; engine errors still propagate."""
 
+    borrowed = True
+
     def __init__(self, rep, keep):
         self._r = rep
         self._keep = set(keep)
